@@ -221,6 +221,11 @@ func (c *Context) Mul(d, x, y *Decimal) (Condition, error) {
 	d.Negative = neg
 	d.Form = Finite
 	res := d.setExponent(c, unknownNumDigits, 0, int64(x.Exponent), int64(y.Exponent))
+	if res.SystemOverflow() || res.SystemUnderflow() {
+		// setExponent gave up without setting d.Exponent; rounding would act on
+		// whatever exponent d held before.
+		return c.goError(res)
+	}
 	res |= c.round(d, d)
 	return c.goError(res)
 }
